@@ -182,6 +182,49 @@ def run(chk, binary):
         if exp != out:
             chk.violation("correspondence:stdout = format_output(records) + newline",
                           {"argv": argv, "stdin": text, "records": recs, "stdout": out.decode(errors="replace"), "model": repr(m)[:500]}, concrete=False)
+    # ---- C. names survive where a cut stands (then branch, --else branch, repeat), and --json is one document whatever the driver ----
+    import re as _re
+    from .. import drivers as D
+    cjobs, cmeta = [], []
+    for _ in range(300 if thorough else 60):
+        text = rng.choice([t for t in L.TEXTS if t.strip()])
+        pat = rng.choice(["foo", "a", "qqq", "o", "^$", "z", "\\d"])
+        cut1, cut2 = rng.choice(["e", "w", "$", "iw"]), rng.choice(["e", "$", "w"])
+        rep = ["-r", "1", "1"] if rng.random() < 0.3 else []
+        argv = ["--json", "-g", pat, "-c", "name=hit", cut1] + rep + ["--else", "-c", "name=miss", cut2] + rep + ["--end"]
+        cjobs.append({"args": argv, "stdin": text})
+        cmeta.append((argv, text, pat, bool(rep)))
+    for (argv, text, pat, rep), (rc, out, err) in zip(cmeta, cli_map(binary, cjobs)):
+        chk.count(("names", tuple(argv), text), nontrivial=True)
+        if rc != 0:
+            continue
+        try:
+            recs = json.loads(out.decode("utf-8"))
+        except Exception as e:
+            chk.violation("spec:--json output is not one JSON document", {"argv": argv, "stdin": text, "stdout": out.decode(errors="replace")[:400], "error": str(e)})
+            continue
+        lines = text.split("\n")
+        if lines and lines[-1] == "":
+            lines.pop()
+        hit = any(_re.search(pat, l) for l in lines)
+        want = "hit" if hit else "miss"
+        keys = {k for r in recs if isinstance(r, dict) for k in r}
+        if keys and keys != {want}:
+            chk.violation("spec:a named field does not carry its name", {"argv": argv, "stdin": text, "expected_key": want, "keys": sorted(keys), "stdout": out.decode(errors="replace")[:300]})
+    djobs = []
+    for _ in range(60 if thorough else 16):
+        files = [(nm, rng.choice([t for t in L.TEXTS if t.strip()]).encode()) for nm in rng.sample(D.FILE_NAMES, rng.choice([2, 3]))]
+        mode = rng.choice([["--linewise", "--serial"], ["--linewise"], ["--serial"], []])
+        djobs.append({"files": files, "opts": ["--json"] + mode, "cmds": ["-c", "e", "-m", "w", "-c", "name=second", "e"], "stdin": None})
+    for sc, ob in zip(djobs, D.scenarios_map(binary, djobs)):
+        chk.count(("json-files", tuple(ob["argv"])), nontrivial=True)
+        if ob["rc"] != 0:
+            continue
+        try:
+            json.loads(ob["out"].decode("utf-8"))
+        except Exception as e:
+            chk.violation("spec:--json output is not one JSON document", {"argv": ob["argv"], "files": [(a, b.decode(errors="replace")) for a, b in sc["files"]],
+                          "stdout": ob["out"].decode(errors="replace")[:500], "error": str(e)})
     if fmeta:
         chk.sample({"argv": fmeta[0][0], "stdin": fmeta[0][1], "records": fmeta[0][2]})
     chk.cov["input_distribution"] = dist
